@@ -1,6 +1,6 @@
 """C02 — Deferred chaining depth never exhausts the stack.
 
-Engine E1 (tasks).  Four families, all on real Deferreds / inlineCallbacks /
+Engine E1 (tasks).  Four families (plus who consumes a chain and how it is completed), all on real Deferreds / inlineCallbacks /
 coroutines with the default recursion limit:
 
 * chain  — N Deferreds, d_k's first callback returns d_{k+1}; each d_k is
@@ -12,6 +12,13 @@ coroutines with the default recursion limit:
   Deferred (succeed()/fail(), a hand-fired Deferred, or a fired Deferred that
   got its result by chaining itself), i.e. one more implicit chaining step per
   follow-up callback.
+  The chain's head (and the pipeline Deferred below) may have a CONSUMER on top, the way application code waits for a result:
+  a coroutine ``await d``, a generator ``yield from d`` (Deferred.fromCoroutine), an @inlineCallbacks generator ``yield d`` or
+  ``yield from d``; it starts to wait at a tape-chosen point of the firing schedule - head not fired yet, head fired but waiting
+  for a pending chain of some length, head finished.  The chain is COMPLETED by firing its tail or - the other public way to
+  complete a pending chain - by a cancellation request (``cancel()`` or an ``addTimeout`` running out on a clock) applied to a
+  link near the tail or to the head, which Deferred.cancel forwards link by link to the outstanding tail (tail without a
+  canceller: CancelledError; with a canceller that fires its own result).
 * pipe   — ONE Deferred with N callbacks (the callback-style twin of the loops
   below): every step returns a plain value / raises, an already-fired Deferred
   (success or failure), or its own Deferred u_k that is pre-fired, fired later
@@ -29,26 +36,33 @@ coroutines with the default recursion limit:
   callback returned / raised, or by chaining itself to a fired Deferred.
 * coro   — the same loop as an ``async def`` run by ensureDeferred (no plain
   values: ``await 3`` is a TypeError).
+  In both loops a periodic subset of the waits for not-yet-fired Deferreds may be CANCELLED through the loop's own Deferred
+  while the loop is suspended on them; the loop swallows the CancelledError and goes on (the implementation answers each such
+  cancel with a fresh result Deferred the old one chains to - a chain that grows with the number of swallowed cancels).
 
 N, M are drawn log-uniformly by size class from 10 up to 10^5 (the top class is
 rare so that the quick tier stays inside its budget; the thorough tier simply
 sees more of them).  Oracle: a trivial sequential loop predicts every callback
 input, every value a ``yield`` / ``await`` evaluates to, and the final result; no RecursionError; and a stack probe — every user
 callback / loop body walks ``sys._getframe`` — whose maximum must not exceed the
-maximum of the SAME shape run at length 12 by more than a small slack.
+maximum of the SAME shape run at length 12 by more than a small slack.  For a suspended consumer the same comparison is made
+for the number of generator / coroutine objects it delegates through (cr_await / gi_yieldfrom walk): these are frames every
+resumption passes through, i.e. stack used by firing the chain, which no user callback runs inside of.
 """
 import random
 import sys
 import zlib
 
 from twisted.internet import defer
+from twisted.internet.task import Clock
 from twisted.python.failure import Failure
 
 ID = "C02"
 ENGINE = "tasks"
 LEVEL = "exploration"
 TECHNIQUE = ("deterministic simulation: seeded chain shape / firing order / pause pattern on real Deferred chains, callback pipelines, inlineCallbacks "
-             "and coroutines, with a frame-walking stack probe compared against the same shape at length 12")
+             "and coroutines (also as consumers on top of a chain; completion by firing or by a forwarded cancel / timeout), with a frame-walking stack "
+             "probe and a delegation-depth probe compared against the same shape at length 12")
 QUICK_RUNS = 1600
 TWIN_P = 0.08   # this share of the runs drives two independent instances of the scenario one after the other (detsim.runner._run_scenario)
 BATCH = 12
@@ -65,7 +79,13 @@ RULE = ("run = one chain of N Deferreds (d_k's callback returns d_k+1, followed 
         "return values of nested finished generators/coroutines and (generator only) a periodic subset of plain non-Deferred yields take a tape-chosen "
         "pattern of value shapes (int only / None only / int+None / falsy scalars and empty containers / objects, strings, tuples, exception instance "
         "as a value, class / all 16 shapes), and a pre-fired Deferred obtained its result via callback()/errback(), succeed()/fail(), its last "
-        "callback's return value or raise, or chaining to a fired Deferred; non-trivial = length >= 100 (a recursive implementation would already exceed "
+        "callback's return value or raise, or chaining to a fired Deferred; chains and pipelines get, in 2/3 of the runs, a consumer on top of their "
+        "head (coroutine await / generator yield from / inlineCallbacks yield / inlineCallbacks yield from) that starts waiting at one of 9 "
+        "points of the firing schedule; a chain is completed by firing its tail (8), by cancel() (3) or by an addTimeout on a clock (1), the "
+        "request entering near the tail (7) or at the head (3, it then travels the whole chain), tail with or without a canceller; the loops "
+        "cancel-and-swallow a periodic subset of their pending waits (weight 2x2 against 9, at most the first 2500 items; the weights are the "
+        "module constants CANCEL_COMPLETION_W, TIMEOUT_COMPLETION_W, CANCEL_FROM_HEAD_W, LOOP_CANCEL_W, LOOP_CANCEL_CAP); non-trivial = length >= 100 "
+        "(a recursive implementation would already exceed "
         "the stack bound)")
 ASSUMPTIONS = ["CPython default recursion limit (1000) is left untouched", "operations are issued from outside callbacks",
                "the top size class (2*10^4..10^5) is drawn in about 1% of runs in either tier",
@@ -75,11 +95,31 @@ ASSUMPTIONS = ["CPython default recursion limit (1000) is left untouched", "oper
                "'already-fired Deferreds' is read without restriction on their results: any Python object that is not a Deferred / Failure is an "
                "ordinary success result (None, falsy values, empty containers, an exception instance passed to callback(), a class); a generator "
                "yielding a non-Deferred, non-coroutine value gets that very value back (inlineCallbacks documentation) and such yields count as steps "
-               "of the loop; the loop body must see a value of the same type and content (identity is not demanded)"]
+               "of the loop; the loop body must see a value of the same type and content (identity is not demanded)",
+               "'completes' is read without restriction on WHO observes the completion and HOW the outstanding tail gets its result: a coroutine / "
+               "generator waiting for the head is a user of the chain like a callback is, and Deferred.cancel() (documented: 'if this Deferred is "
+               "waiting on another Deferred, forward the cancellation to the other Deferred') / addTimeout are public ways to complete a pending chain, "
+               "the tail being fired from inside the cancel() call - so the frames cancel() itself stacks up are stack used by firing the chain.  Runs "
+               "in which a cancellation request has to travel a distance that grows with the length carry their own witnesses "
+               "('chain/cancel-whole-chain', '<loop>/cancelled-waits'); the constants CANCEL_FROM_HEAD_W / LOOP_CANCEL_W set to 0 remove exactly them",
+               "a consumer's own Deferred is compared with the model's final result of the head; what the head is left with afterwards is not judged",
+               "a swallowed cancel resumes the loop a fixed number of frames deeper than a firing does (CANCEL_PATH_FRAMES allowance when only "
+               "the long run contains one)"]
 
 SLACK = 6
 BASELINE_LEN = 12
 MOD = 1000003
+AWAIT_SAMPLES = 48          # how often per run the suspended consumer's delegation depth is measured
+# Knobs of the completion-by-cancellation families (module-level constants; a weight of 0 switches the sub-family off).
+CANCEL_COMPLETION_W = 3     # chain: weight of "the pending chain is completed by cancel()" against 8 for "its tail is fired"
+TIMEOUT_COMPLETION_W = 1    # chain: the same through addTimeout() and a clock
+CANCEL_FROM_HEAD_W = 3      # of those: weight of "cancel() is called on the head, the request travels the WHOLE chain" against 7 for
+                            # "called on a link 1..4 steps from the tail" (a forwarded cancel whose length does not depend on N)
+LOOP_CANCEL_W = 2           # loops: weight of "waits on unfired Deferreds are cancelled through the loop's own Deferred and swallowed" against 9
+CANCEL_PATH_FRAMES = 16     # a swallowed cancellation resumes the loop from inside cancel() -> canceller -> errback -> cancel() of the awaited
+                            # Deferred: a FIXED number of frames deeper than a firing does.  Where the length-12 baseline happens to contain
+                            # no such resumption while the long run does, the bound is widened by this constant.
+LOOP_CANCEL_CAP = 2500      # only items below this index are cancelled (every swallowed cancel is re-walked by the next one: quadratic)
 
 
 class Boom(Exception):
@@ -167,17 +207,122 @@ def fire(d, v):
         d.callback(v)
 
 
+# ---------------------------------------------------------------- shared: a coroutine / generator consumer on top of a Deferred
+
+CONSUMERS = ("none", "await", "yield-from", "inline-yield", "inline-yield-from")
+
+
+def await_depth(g, cap=5000):
+    """Through how many generator / coroutine objects the suspended consumer `g` delegates (cr_await / gi_yieldfrom walk): every
+    level is a frame that each resumption has to pass through, i.e. stack used by firing what the consumer waits for."""
+    n = 0
+    x = g
+    while n < cap:
+        x = getattr(x, "cr_await", None) if hasattr(x, "cr_await") else getattr(x, "gi_yieldfrom", None)
+        if x is None:
+            break
+        n += 1
+    return n
+
+
+def attach_consumer(kind, d, out, base):
+    """Start a coroutine / generator that waits for `d` the way application code does; returns (outcomes, sample)."""
+    got = []
+    holder = []
+    out["consumer_at"] = "unfired" if not d.called else ("fired-waiting" if d.paused else "finished")
+
+    def note():
+        x = depth() - base
+        if x > out["maxdepth"]:
+            out["maxdepth"] = x
+        out["consumer_resumed"] = out.get("consumer_resumed", 0) + 1
+
+    if kind == "await":
+        async def consumer():
+            try:
+                return await d
+            finally:
+                note()
+        g = consumer()
+        holder.append(g)
+        cd = defer.ensureDeferred(g)
+    elif kind == "yield-from":
+        def consumer():
+            try:
+                v = yield from d
+            finally:
+                note()
+            return v
+        g = consumer()
+        holder.append(g)
+        cd = defer.Deferred.fromCoroutine(g)
+    else:
+        if kind == "inline-yield":
+            def consumer():
+                try:
+                    v = yield d
+                finally:
+                    note()
+                return v
+        else:
+            def consumer():
+                try:
+                    v = yield from d
+                finally:
+                    note()
+                return v
+
+        def make():
+            g = consumer()
+            holder.append(g)
+            return g
+        cd = defer.inlineCallbacks(make)()
+    cd.addBoth(lambda r: got.append(absval(r)))
+    samples = [0]
+
+    def sample():
+        if got or samples[0] >= AWAIT_SAMPLES:
+            return
+        samples[0] += 1
+        x = await_depth(holder[0])
+        if x > out.get("maxawait", 0):
+            out["maxawait"] = x
+    sample()
+    return got, sample
+
+
+def consumer_result(got):
+    return got[0] if len(got) == 1 else "<consumer completed %d times>" % len(got)
+
+
 # ---------------------------------------------------------------- family: chain
 
+def cancel_target(n, cfg):
+    """Index of the link cancel() / the timeout is applied to when the chain is completed by cancellation (else None)."""
+    if cfg.get("completion", "fire") == "fire":
+        return None
+    if cfg["cancel_from"] == "head":
+        return 0
+    return max(0, n - 1 - cfg["cancel_span"])
+
+
 def chain_model(n, cfg):
-    """Trivial sequential model: value threaded from d_{n-1} back to d_0 through the w follow-up callbacks of each link."""
+    """Trivial sequential model: value threaded from d_{n-1} back to d_0 through the w follow-up callbacks of each link.  When
+    the chain is completed by cancellation the tail's own result is what its canceller gives it (its ordinary own value) or, without a
+    canceller, a CancelledError failure; a timed-out link turns a CancelledError that reaches the end of its callbacks into TimeoutError."""
     w = cfg.get("per_link", 1)
     exp_in = [None] * (n * w)
-    x = own_value(n - 1, cfg)
+    tk = cancel_target(n, cfg)
+    if tk is not None and cfg["tail_canceller"] == "none":
+        x = ("F", "CancelledError")
+    else:
+        x = own_value(n - 1, cfg)
     for k in range(n - 1, -1, -1):
         for key in range(k * w, k * w + w):
             exp_in[key] = x
             x = b_model(key, x, cfg)
+        if k == tk and cfg["completion"] == "timeout" and x == ("F", "CancelledError"):
+            x = ("F", "TimeoutError")
     return exp_in, x
 
 
@@ -224,10 +369,21 @@ def run_chain(n, cfg, out):
     pm, zm = cfg["prefire_mod"], cfg["pause_mod"]
     prefired = [bool(pm) and k % pm == 0 for k in range(n)]
     paused = [bool(zm) and k % zm == 1 for k in range(n)]
+    tk = cancel_target(n, cfg)
+    clock = None
+    if tk is not None:
+        prefired[n - 1] = False             # the tail stays outstanding: the chain is completed by cancelling it through link tk
+
+    def tail_canceller(d):
+        out["tail_canceller_ran"] = out.get("tail_canceller_ran", 0) + 1
+        fire(d, own_value(n - 1, cfg))
 
     ds = [None] * n
     for k in range(n - 1, -1, -1):          # built from the far end so that pre-fired heads find a complete tail
-        d = ds[k] = defer.Deferred()
+        if k == n - 1 and tk is not None and cfg["tail_canceller"] == "own":
+            d = ds[k] = defer.Deferred(tail_canceller)
+        else:
+            d = ds[k] = defer.Deferred()
         if prefired[k]:
             fire(d, own_value(k, cfg))
         if paused[k]:
@@ -236,7 +392,11 @@ def run_chain(n, cfg, out):
             d.addBoth(nxt, k)
         for key in range(k * w, k * w + w):
             d.addBoth(body, key)
-    ops = [("fire", k) for k in order_of([k for k in range(n) if not prefired[k]], cfg["fire_order"], cfg["shuffle_seed"])]
+        if k == tk and cfg["completion"] == "timeout":
+            clock = Clock()
+            d.addTimeout(5.0, clock)        # covers the callbacks added so far, i.e. all of this link's
+    ops = [("fire", k) for k in order_of([k for k in range(n) if not prefired[k] and not (tk is not None and k == n - 1)],
+                                         cfg["fire_order"], cfg["shuffle_seed"])]
     lm = cfg.get("late_mod", 0)
     if lm:
         # a pass-through callback added to d_{k} AFTER d_{k-1} has (possibly) started waiting on it: it lands behind the
@@ -259,17 +419,39 @@ def run_chain(n, cfg, out):
     else:
         ops += unp
         random.Random(cfg["shuffle_seed"] + 2).shuffle(ops)
-    for op, k in ops:
+    ckind = cfg.get("consumer", "none")
+    attach_at = len(ops) * cfg.get("consumer_pos", 0) // 8 if ckind != "none" else -1
+    cgot = sample = None
+    for i, (op, k) in enumerate(ops):
+        if i == attach_at:
+            cgot, sample = attach_consumer(ckind, ds[0], out, base)
         if op == "fire":
             fire(ds[k], own_value(k, cfg))
         elif op == "late":
             ds[k].addBoth(late, k)
         else:
             ds[k].unpause()
+        if sample is not None:
+            sample()
+    if tk is not None:
+        # every link but the tail is fired and running by now: d_tk waits (through n-1-tk links) for the tail
+        out["cancel_travels"] = n - 1 - tk
+        if clock is not None:
+            clock.advance(6.0)
+        else:
+            ds[tk].cancel()
+        if sample is not None:
+            sample()
+    if ckind != "none" and cgot is None:
+        cgot, sample = attach_consumer(ckind, ds[0], out, base)
     out["calls_wrong"] = [key for key in range(n * w) if seen[key] != 1][:5]
     out["unfinished"] = [k for k in range(n) if not ds[k].called or ds[k].paused or ds[k].callbacks][:5]
     d0 = ds[0]
-    res = absval(getattr(d0, "result", "<no-result>"))
+    if cgot is not None:
+        # the consumer was the last to look at d_0's result; d_0 itself is left with None
+        res = consumer_result(cgot)
+    else:
+        res = absval(getattr(d0, "result", "<no-result>"))
     # consume failures so that garbage collection of 10^5 Deferreds stays quiet
     for d in ds:
         r = getattr(d, "result", None)
@@ -346,16 +528,28 @@ def run_pipe(n, cfg, out):
     ops += unp
     if cfg["merge"] != "after":
         random.Random(cfg["shuffle_seed"] + 2).shuffle(ops)
-    for op, k in ops:
+    ckind = cfg.get("consumer", "none")
+    attach_at = len(ops) * cfg.get("consumer_pos", 0) // 8 if ckind != "none" else -1
+    cgot = sample = None
+    for i, (op, k) in enumerate(ops):
+        if i == attach_at:
+            cgot, sample = attach_consumer(ckind, d, out, base)
         if op == "fire":
             fire(us[k], own_value(k, cfg))
         else:
             us[k].unpause()
+        if sample is not None:
+            sample()
+    if ckind != "none" and cgot is None:
+        cgot, sample = attach_consumer(ckind, d, out, base)
     out["calls_wrong"] = [k for k in range(n) if seen[k] != 1][:5]
     out["unfinished"] = [k for k in waits if not us[k].called or us[k].paused or us[k].callbacks][:5]
     if not d.called or d.paused or d.callbacks:
         out["unfinished"].append("pipeline")
-    res = absval(getattr(d, "result", "<no-result>"))
+    if cgot is not None:
+        res = consumer_result(cgot)
+    else:
+        res = absval(getattr(d, "result", "<no-result>"))
     if isinstance(getattr(d, "result", None), Failure):
         d.addErrback(lambda f: None)
     return res, final
@@ -475,11 +669,47 @@ def loop_items(m, cfg):
     return items
 
 
-def loop_model(items, cfg):
+def cancel_designated(it, cfg):
+    """Is the wait for item `it` one that gets cancelled (if the loop is found waiting for it)?"""
+    cm = cfg.get("cancel_mod", 0)
+    return bool(cm) and it[0] == "d" and not it[2] and it[1] % cm == 1 and it[1] < LOOP_CANCEL_CAP
+
+
+def loop_cancel_plan(items, order, cfg):
+    """Model of the driver: before each of its firing steps it looks at the item the loop is waiting for (the first one that is
+    neither ready nor cancelled yet); if that wait is designated, the loop's own Deferred is cancelled - the awaited Deferred has no
+    canceller, so the wait ends with CancelledError, which the loop swallows - and the item is never fired."""
+    m = len(items)
+    done = bytearray(m)
+    for it in items:
+        if it[0] != "d" or it[2]:
+            done[it[1]] = 1
+    cancelled = set()
+    p = 0
+    while p < m and done[p]:
+        p += 1
+    for it in order:
+        if p < m and cancel_designated(items[p], cfg):
+            cancelled.add(p)
+            done[p] = 1
+            while p < m and done[p]:
+                p += 1
+        if it[1] not in cancelled:
+            done[it[1]] = 1
+            while p < m and done[p]:
+                p += 1
+    return cancelled
+
+
+def loop_model(items, cfg, cancelled=()):
     """Trivial sequential model: (what every `yield` / `await` evaluates to or raises, final result)."""
     acc = 0
     exp = []
     for it in items:
+        if it[1] in cancelled:
+            exp.append(("C",))
+            acc = (acc * 5 + 1) % MOD
+            continue
         if it[0] == "nest":
             e = EXPECTED_ABS[it[2]](2 * it[1])
         elif it[0] == "plain":
@@ -498,7 +728,9 @@ def loop_model(items, cfg):
 
 def run_loop(family, m, cfg, out):
     items = loop_items(m, cfg)
-    exp, final = loop_model(items, cfg)
+    later = order_of([it for it in items if it[0] == "d" and not it[2]], cfg["fire_order"], cfg["shuffle_seed"])
+    plan = loop_cancel_plan(items, later, cfg) if cfg.get("cancel_mod", 0) else set()
+    exp, final = loop_model(items, cfg, plan)
     bad = out["bad"]
     base = depth()
     steps = [0]
@@ -521,6 +753,12 @@ def run_loop(family, m, cfg, out):
         if a != exp[k] and len(bad) < 5:
             bad.append((k, a, exp[k]))
         return e.args[0]
+
+    def got_cancelled(k):
+        if ("C",) != exp[k] and len(bad) < 5:
+            bad.append((k, ("C",), exp[k]))
+
+    cur = [None]        # the item the loop went to wait for last
 
     def outcome_of(it):
         # -> the success value, or the exception the Deferred fails with
@@ -615,9 +853,13 @@ def run_loop(family, m, cfg, out):
                     elif it[0] == "plain":
                         v = yield plain(it)        # not a Deferred: the generator gets the very value back
                     else:
+                        cur[0] = it[1]
                         v = yield ds[it[1]]
                 except Boom as e:
                     acc = (acc * 3 + got_boom(it[1], e)) % MOD
+                except defer.CancelledError:
+                    got_cancelled(it[1])
+                    acc = (acc * 5 + 1) % MOD
                 else:
                     acc = (acc + got_value(it[1], v)) % MOD
                 probe()
@@ -633,9 +875,13 @@ def run_loop(family, m, cfg, out):
                     if it[0] == "nest":
                         v = await nested(it)
                     else:
+                        cur[0] = it[1]
                         v = await ds[it[1]]
                 except Boom as e:
                     acc = (acc * 3 + got_boom(it[1], e)) % MOD
+                except defer.CancelledError:
+                    got_cancelled(it[1])
+                    acc = (acc * 5 + 1) % MOD
                 else:
                     acc = (acc + got_value(it[1], v)) % MOD
                 probe()
@@ -652,13 +898,22 @@ def run_loop(family, m, cfg, out):
         return None
 
     result.addBoth(done)
-    later = [it for it in items if it[0] == "d" and not it[2]]
     early = None
-    for it in order_of(later, cfg["fire_order"], cfg["shuffle_seed"]):
-        if fired and early is None:
-            early = it[1]
-        firenow(ds[it[1]], it)
+    cancelled = set()
+    for it in later:
+        c = cur[0]
+        if not fired and c is not None and c not in cancelled and cancel_designated(items[c], cfg) and not ds[c].called:
+            # the loop is suspended on ds[c]: give up that wait through the loop's own Deferred; the loop swallows it and goes on
+            cancelled.add(c)
+            result.cancel()
+        if it[1] not in cancelled:
+            if fired and early is None:
+                early = it[1]
+            firenow(ds[it[1]], it)
     out["early"] = early
+    out["cancelled"] = len(cancelled)
+    if cancelled != plan:
+        out["bad"].append(("cancel-plan", sorted(cancelled)[:3], sorted(plan)[:3]))
     out["fired"] = fired
     out["steps"] = steps[0]
     return (fired[0] if fired else "<unfired>"), final
@@ -685,7 +940,13 @@ def run(sim):
                    late_mod=sim.draw_choice([0, 1, 3], "late_mod"),
                    per_link=sim.draw_choice([1, 2, 3], "per_link"),
                    ready_mod=sim.draw_choice([0, 1, 2, 5], "ready_mod"),
-                   ready_kind=sim.draw_choice(["helper", "manual", "chained"], "ready_kind"))
+                   ready_kind=sim.draw_choice(["helper", "manual", "chained"], "ready_kind"),
+                   consumer=sim.draw_weighted([(c, 4 if c == "none" else 2) for c in CONSUMERS], "consumer"),
+                   consumer_pos=sim.draw_int(0, 8, "consumer_pos"),
+                   completion=sim.draw_weighted([("fire", 8), ("cancel", CANCEL_COMPLETION_W), ("timeout", TIMEOUT_COMPLETION_W)], "completion"),
+                   cancel_from=sim.draw_weighted([("near-tail", 7), ("head", CANCEL_FROM_HEAD_W)], "cancel_from"),
+                   cancel_span=sim.draw_int(1, 4, "cancel_span"),
+                   tail_canceller=sim.draw_choice(["none", "own"], "tail_canceller"))
     elif family == "pipe":
         cfg.update(pause_mod=sim.draw_choice([0, 3, 2], "pause_mod"),
                    unpause_order=sim.draw_choice(["asc", "desc", "perm"], "unpause_order"),
@@ -695,21 +956,32 @@ def run(sim):
                    build=sim.draw_choice(["then-fire", "fired-first"], "build"),
                    wait_mod=sim.draw_choice([0, 5, 2, 50], "wait_mod"),
                    ready_mod=sim.draw_choice([0, 1, 2, 5], "ready_mod"),
-                   ready_kind=sim.draw_choice(["helper", "manual", "chained"], "ready_kind"))
+                   ready_kind=sim.draw_choice(["helper", "manual", "chained"], "ready_kind"),
+                   consumer=sim.draw_weighted([(c, 4 if c == "none" else 2) for c in CONSUMERS], "consumer"),
+                   consumer_pos=sim.draw_int(0, 8, "consumer_pos"))
     else:
         cfg.update(nest_mod=sim.draw_choice([0, 4, 9], "nest_mod"),
                    nest_kind=sim.draw_choice(["gen", "coro-deferred", "coro"], "nest_kind"),
                    end_raises=sim.draw_bool(0.3, "end_raises"),
                    value_pattern=sim.draw_weighted([(0, 3), (1, 2), (2, 2), (3, 2), (4, 2), (5, 3)], "value_pattern"),
                    plain_mod=sim.draw_choice([0, 3, 1, 6], "plain_mod"),
-                   result_from=sim.draw_choice(["callback", "helper", "returned", "chained"], "result_from"))
+                   result_from=sim.draw_choice(["callback", "helper", "returned", "chained"], "result_from"),
+                   cancel_mod=sim.draw_weighted([(0, 9), (2, LOOP_CANCEL_W), (5, LOOP_CANCEL_W)], "cancel_mod"))
     sim.config = cfg
     sim.event("config", sorted(cfg.items()))
     sim.check("recursion-limit-default", sys.getrecursionlimit() == 1000, "env", "recursion limit is %d" % sys.getrecursionlimit())
 
+    # Runs whose completion depends on a cancellation request travelling a distance that grows with the length carry their own
+    # witness, so that what they find is never mixed up with the firing paths.
+    wit = family
+    if family == "chain" and cfg["completion"] != "fire" and cfg["cancel_from"] == "head":
+        wit = "chain/cancel-whole-chain"
+    elif family in ("inline", "coro") and cfg["cancel_mod"]:
+        wit = family + "/cancelled-waits"
+
     def one(length):
         out = {"maxdepth": 0, "bad": []}
-        with sim.guard("raised", family):
+        with sim.guard("raised", wit):
             if family == "chain":
                 got, want = run_chain(length, cfg, out)
             elif family == "pipe":
@@ -724,22 +996,39 @@ def run(sim):
     sim.step(10)
     shape = "%s/%s" % (family, cfg["fire_order"])
     # 1. stack usage does not grow with the length
-    sim.check("stack-grows-with-length", out["maxdepth"] <= base_out["maxdepth"] + SLACK, family,
+    slack = SLACK + (CANCEL_PATH_FRAMES if out.get("cancelled") and not base_out.get("cancelled") else 0)
+    grows = out["maxdepth"] > base_out["maxdepth"] + slack
+    if grows:
+        # Two short lengths can differ by a FIXED number of frames when the drawn shape has a combination of features (a nested
+        # consumer cancelled from inside a swallowed cancel, say) that first occurs at an index beyond the length-12 baseline:
+        # that is not growth with the length.  Growth is decided at a third, longer run of the same shape: a path that recurses
+        # per element adds at least 2n frames between n and 3n, a fixed offset adds none.  (one() draws nothing from the tape.)
+        out3, _got3, _want3 = one(3 * n)
+        sim.event("confirm", family, 3 * n, "maxdepth", out3["maxdepth"])
+        sim.probe("depth_difference_rechecked_at_triple_length")
+        grows = out3["maxdepth"] > out["maxdepth"] + SLACK
+        if not grows:
+            sim.probe("depth_difference_bounded_not_growth")
+    sim.check("stack-grows-with-length", not grows, wit,
               "max relative frame depth %d at length %d vs %d at length %d (shape %s, cfg %r)"
               % (out["maxdepth"], n, base_out["maxdepth"], min(n, BASELINE_LEN), shape, cfg))
+    # 1b. nor does what a suspended coroutine / generator consumer keeps stacked between itself and the Deferred it waits for
+    sim.check("delegation-grows-with-length", out.get("maxawait", 0) <= base_out.get("maxawait", 0) + SLACK, wit,
+              "the suspended consumer delegates through %d generator frames at length %d vs %d at length %d (shape %s, cfg %r)"
+              % (out.get("maxawait", 0), n, base_out.get("maxawait", 0), min(n, BASELINE_LEN), shape, cfg))
     # 2. no RecursionError anywhere
     rec = [b for b in out["bad"] if b[1] == ("F", "RecursionError")] or (got == ("F", "RecursionError"))
-    sim.check("recursion-error", not rec, family, "RecursionError surfaced: %r final %r (length %d, cfg %r)" % (out["bad"][:2], got, n, cfg))
+    sim.check("recursion-error", not rec, wit, "RecursionError surfaced: %r final %r (length %d, cfg %r)" % (out["bad"][:2], got, n, cfg))
     # 3. the computation is the one the trivial model predicts
-    sim.check("callback-inputs", not out["bad"], family, "(k, got, expected): %r (length %d, cfg %r)" % (out["bad"], n, cfg))
+    sim.check("callback-inputs", not out["bad"], wit, "(k, got, expected): %r (length %d, cfg %r)" % (out["bad"], n, cfg))
     if family in ("chain", "pipe"):
-        sim.check("each-callback-once", not out["calls_wrong"], family, "callbacks not run exactly once at k=%r (length %d, cfg %r)" % (out["calls_wrong"], n, cfg))
-        sim.check("chain-completes", not out["unfinished"], family, "Deferreds left unfired/paused/with callbacks at k=%r (length %d)" % (out["unfinished"], n))
+        sim.check("each-callback-once", not out["calls_wrong"], wit, "callbacks not run exactly once at k=%r (length %d, cfg %r)" % (out["calls_wrong"], n, cfg))
+        sim.check("chain-completes", not out["unfinished"], wit, "Deferreds left unfired/paused/with callbacks at k=%r (length %d)" % (out["unfinished"], n))
     else:
-        sim.check("completes-once", len(out["fired"]) == 1, family, "result Deferred fired %d times (length %d, cfg %r)" % (len(out["fired"]), n, cfg))
-        sim.check("not-before-last-await", out["early"] is None, family, "completed before Deferred %r was fired" % (out["early"],))
-    sim.check("final-result", got == want, family, "got %r expected %r (length %d, cfg %r)" % (got, want, n, cfg))
-    sim.check("baseline-result", bgot == bwant and not base_out["bad"], family, "length-%d baseline got %r expected %r" % (min(n, BASELINE_LEN), bgot, bwant))
+        sim.check("completes-once", len(out["fired"]) == 1, wit, "result Deferred fired %d times (length %d, cfg %r)" % (len(out["fired"]), n, cfg))
+        sim.check("not-before-last-await", out["early"] is None, wit, "completed before Deferred %r was fired" % (out["early"],))
+    sim.check("final-result", got == want, wit, "got %r expected %r (length %d, cfg %r)" % (got, want, n, cfg))
+    sim.check("baseline-result", bgot == bwant and not base_out["bad"], wit, "length-%d baseline got %r expected %r" % (min(n, BASELINE_LEN), bgot, bwant))
     sim.probe("family_" + family)
     sim.probe("size_class_%d" % cls)
     if cfg["prefire_mod"] == 1:
@@ -762,6 +1051,17 @@ def run(sim):
         sim.probe("pipe_fired_before_built")
     if cfg["fail_mod"]:
         sim.fault("failure_results")
+    if out.get("consumer_at"):
+        sim.probe("consumer_%s_on_%s_head" % (cfg["consumer"], out["consumer_at"]))
+        if out["consumer_at"] == "fired-waiting" and out.get("consumer_resumed"):
+            sim.probe("consumer_resumed_after_pending_chain")
+    if out.get("cancel_travels") is not None:
+        sim.fault("chain_completed_by_%s" % cfg["completion"])
+        sim.probe("cancel_from_" + cfg["cancel_from"])
+        if out.get("tail_canceller_ran"):
+            sim.probe("tail_canceller_fired_the_tail")
+    if out.get("cancelled"):
+        sim.fault("loop_wait_cancelled_and_swallowed")
     if out.get("pf_none"):
         sim.probe("loop_prefired_result_none")
     if out.get("pf_falsy"):
@@ -780,7 +1080,7 @@ def run(sim):
         sim.probe("loop_prefired_result_from_chaining")
     sim.state((family, cls, cfg["fire_order"], cfg["prefire_mod"], cfg["fail_mod"], cfg.get("pause_mod"), cfg.get("nest_mod"), cfg.get("merge"),
                cfg.get("ready_mod"), cfg.get("per_link"), cfg.get("wait_mod"), cfg.get("build"), cfg.get("value_pattern"), cfg.get("plain_mod"),
-               cfg.get("result_from")))
+               cfg.get("result_from"), cfg.get("consumer"), cfg.get("completion"), cfg.get("cancel_from"), cfg.get("cancel_mod")))
     sim.nontrivial = n >= 100
 
 
@@ -803,4 +1103,13 @@ MUTANTS = [
     "plain (non-Deferred) yields handled by a tail call (`if not isDeferred: return _inlineCallbacks(result, gen, status, context)` before "
     "`if isDeferred:`): CAUGHT (stack-grows-with-length:inline)",
     "_inlineCallbacks loop unfolding removed (`if waiting[0]:` -> `if False:` in _gotResultInlineCallbacks, so every ready yield recurses): CAUGHT (stack-grows-with-length:inline)",
+    "Deferred.__iter__/__await__ of a fired Deferred that waits for another one delegates to it (`yield from self._chainedTo` instead of `yield self`; seeded "
+    "C02-r6a-await-delegates-to-chained-deferred), so a coroutine awaiting the head of a pending chain stacks one generator frame per link: was MISSED "
+    "while nothing but callbacks ever consumed a chain; CAUGHT (delegation-grows-with-length:chain, recursion-error:chain) since chains and pipelines "
+    "get coroutine / generator consumers that start waiting in the middle of the firing schedule",
+    "Deferred.cancel() forwarding a cancellation along a pending chain by recursion (`self.result.cancel()`), which is what the tree had when the "
+    "cancellation families were added: genuine defect of the tree as first examined, REPAIRED in /repo 90524fc (raised:chain/cancel-whole-chain:RecursionError, "
+    "stack-grows-with-length:chain/cancel-whole-chain, stack-grows-with-length:inline/cancelled-waits, ...:coro/cancelled-waits; witness: a chain of "
+    "n=1200 links d[i] -> d[i+1], d[0].cancel(): RecursionError reaches the caller and the chain is left pending); repair: the forwarding is "
+    "written as a loop, the same families (CANCEL_COMPLETION_W = 3, CANCEL_FROM_HEAD_W = 3, LOOP_CANCEL_W = 2; 0 only for dev-time comparison) run clean",
 ]
